@@ -219,6 +219,130 @@ def members_written(items, out=None):
     return out
 
 
+def _flat_prims(items, out=None):
+    out = out if out is not None else []
+    for it in items:
+        if it.kind == "prim":
+            out.append(it)
+        elif it.kind == "loop":
+            try:
+                n_ = int(it.bound)
+            except (TypeError, ValueError):
+                n_ = None
+            sub = _flat_prims(it.items, [])
+            out += sub * (n_ if n_ else 1)
+        elif it.kind == "cond":
+            _flat_prims(it.then, out)
+    return out
+
+
+def _uev(e, env, rsym=None):
+    """Value of an unsigned 64-bit integer expression; env: member name / local id -> int; a `read<...>()` call evaluates
+    to env['#read'].  None when not evaluable."""
+    e = C.strip_casts(e)
+    if e is None:
+        return None
+    k = e.get("k")
+    M = 2 ** 64
+    if k == "Int":
+        return int(e["v"]) % M
+    if k == "Mem" and C.member_name(e) in env:
+        return env[C.member_name(e)]
+    if k == "Ref" and e.get("id") in env:
+        return env[e["id"]]
+    if k == "Call" and e.get("n") == "read" and "#read" in env:
+        return env["#read"]
+    if k == "Bin" and e["op"] in ("+", "-", "*", "%", "/"):
+        a, b = _uev(e["a"], env), _uev(e["b"], env)
+        if a is None or b is None or (e["op"] in ("%", "/") and b == 0):
+            return None
+        op = e["op"]
+        r_ = a + b if op == "+" else a - b if op == "-" else a * b if op == "*" else a % b if op == "%" else a // b
+        return r_ % M
+    if k == "Ctor" and len(e["a"]) == 1:
+        return _uev(e["a"][0], env)
+    return None
+
+
+def derived_round_trip(chk, rule, cls, m, wfn, rfn, wi, ri, inv, nwords, inst, rec, f):
+    """A state member that is not dumped itself but rebuilt by the reader from a dumped value that the writer derives from
+    it: decided by evaluating  reader(writer(state))  over the finite ranges of the members involved."""
+    import itertools
+    wp, rp = _flat_prims(wi), _flat_prims(ri)
+    if len(wp) != len(rp):
+        return False
+    slot = [i for i, it in enumerate(rp) if it.key == ("m", m)]
+    if len(slot) != 1:
+        return False
+    wit = wp[slot[0]]
+    wsrc = getattr(wit, "src", None)
+    if wsrc is None:
+        return False
+    # writer expression: resolve a const local through its declaration
+    wexpr = C.strip_casts(wsrc)
+    if wexpr.get("k") == "Ref" and "id" in wexpr:
+        for st in C.walk_stmt(wfn["body"]):
+            if st.get("k") == "Decl":
+                for d in st["d"]:
+                    if d["id"] == wexpr["id"] and d.get("init") is not None:
+                        wexpr = d["init"]
+    # reader expression: the member initialiser / assignment of m
+    rexpr = None
+    for ini in rfn.get("inits") or []:
+        if ini.get("member") == m:
+            rexpr = ini["x"]
+    if rexpr is None:
+        for st in C.walk_stmt(rfn["body"]):
+            if st.get("k") == "Bin" and st.get("op") == "=" and C.member_name(st["a"]) == m:
+                rexpr = st["b"]
+    if rexpr is None:
+        return False
+    if nwords is None:
+        mods = {C.const_int(x["b"]) for e_ in (wexpr, rexpr) for x in C.walk(e_)
+                if x.get("k") == "Bin" and x["op"] == "%" and C.const_int(x["b"])}
+        if len(mods) != 1:
+            return False
+        nwords = mods.pop()
+    names = sorted({C.member_name(x) for e_ in (wexpr, rexpr) for x in C.walk(e_) if x.get("k") == "Mem" and C.member_name(x)})
+    if m not in names:
+        names.append(m)
+    ranges = []
+    assumed = []
+    for nme in names:
+        v = inv.get(("m", nme))
+        if v is not None and hasattr(v, "lo") and v.lo != v.hi and v.hi - v.lo < 4096:
+            ranges.append(range(int(v.lo), int(v.hi) + 1))
+        else:
+            ranges.append(range(0, nwords))
+            assumed.append(nme)
+    total = 1
+    for r_ in ranges:
+        total *= len(r_)
+    if total > 200000:
+        raise AnalysisBroken("%s: " % rule + "the derived state member %s depends on too many values to enumerate" % m)
+    bad = None
+    for combo in itertools.product(*ranges):
+        env = dict(zip(names, combo))
+        w = _uev(wexpr, env)
+        if w is None:
+            raise AnalysisBroken("%s: " % rule + "cannot evaluate what the writer stores for %s (`%s`)" % (m, C.pretty(wexpr)[:60]))
+        env2 = dict(env)
+        env2["#read"] = w
+        g = _uev(rexpr, env2)
+        if g is None:
+            raise AnalysisBroken("%s: " % rule + "cannot evaluate how the reader rebuilds %s (`%s`)" % (m, C.pretty(rexpr)[:60]))
+        if g != env[m]:
+            bad = (env, w, g)
+            break
+    chk.require(bad is None, rule, inst + " (rebuilt by the reader from a derived value; %d states enumerated%s)" %
+                (total, ", %s assumed in [0, %d)" % (", ".join(assumed), nwords) if assumed else ""),
+                "%s:%s" % (where(rec).split(":")[0], f["l"]),
+                "with %s the writer stores %s and the reader rebuilds %s = %s: a generator restored at that point does not "
+                "continue the sequence" % ({k_: v_ for k_, v_ in (bad[0] if bad else {}).items()}, bad[1] if bad else "", m,
+                                           bad[2] if bad else ""), function=rfn["full"], construct=m)
+    return True
+
+
 def run(chk, prog):
     chk.explanation = (
         "Serialization grammars (ordered trees of primitives, nested objects, loops and conditions, each item tied "
@@ -320,6 +444,8 @@ def run(chk, prog):
             if m in written and m not in read:
                 chk.fail("R3", inst, loc, "member is written to the dump but never restored from it",
                          function=rfn["full"], construct=m)
+                continue
+            if m in read and m not in written and derived_round_trip(chk, "R3", cls, m, wfn, rfn, wi, ri, {}, None, inst, rec, f):
                 continue
             if m in read and m not in written:
                 chk.fail("R3", inst, loc, "member is read from the dump but never written to it",
